@@ -71,6 +71,21 @@ class Acc:
         if len(self.samples) < self.MAX_SAMPLES:
             self.samples.append(s)
 
+    def compact(self):
+        """Replace the digest sets by their sizes (only valid when the caller's
+        work items are disjoint by construction, so that sizes add up)."""
+        self.counts['states_compacted'] += len(self.states)
+        self.counts['nontrivial_compacted'] += len(self.nontrivial)
+        self.states = set()
+        self.nontrivial = set()
+        return self
+
+    def n_states(self):
+        return len(self.states) + self.counts.get('states_compacted', 0)
+
+    def n_nontrivial(self):
+        return len(self.nontrivial) + self.counts.get('nontrivial_compacted', 0)
+
     def merge(self, other: 'Acc'):
         for sig, lst in other.viol.items():
             mine = self.viol.setdefault(sig, [])
@@ -181,10 +196,10 @@ def write_evidence(prop: str, tier: str, seed: int, level: str, acc: Acc,
                    n_violations: int, exhaustive: bool = True):
     cov = {
         'evaluations': int(acc.counts.get('evaluations', 0)),
-        'distinct_nontrivial': len(acc.nontrivial),
+        'distinct_nontrivial': acc.n_nontrivial(),
         'rule': rule,
         'samples': acc.samples[:Acc.MAX_SAMPLES] or ['(none)'],
-        'states': len(acc.states),
+        'states': acc.n_states(),
         'transitions': int(acc.counts.get('transitions', 0)),
         'traces_validated_against_impl': int(acc.counts.get('traces', 0)),
         'exhaustive': bool(exhaustive),
